@@ -1,6 +1,6 @@
 """C17 - freeze: scope-model agreement with the evaluator, identity rewrite, every child frozen, guarded folds."""
 import re
-from .core import (try_body_scope, scope_constructors, CheckError, find_match, arm_region, pat_str, strip_ref, origins, only_when, pat_paths,
+from .core import (family_bodies, try_body_scope, scope_constructors, CheckError, find_match, arm_region, pat_str, strip_ref, origins, only_when, pat_paths,
                    Registry, op_local, bool_switches)
 
 META = {
@@ -426,6 +426,25 @@ def run(F, rep, tier):
                 else:
                     rep.ok('R17.7', '%s -> %s' % (w.rsplit('::', 1)[-1], c.target.rsplit('::', 1)[-1]), 'argument is the wrapper\'s own parameter / element')
     rep.floor('R17.7', 'wrapper calls into the freeze family', n7, 8)
+    # wrappers hand back what the freeze family produced, and do no binding of their own
+    for w in sorted(F.fns):
+        nm_ = w.rsplit('::', 1)[-1]
+        if not (w.startswith('core::') and nm_ in FREEZE_FAMILY and nm_ not in ('freeze', 'freeze_lvalue', 'freeze_ios')):
+            continue
+        wb_ = F.body(w)
+        binders = [c for b_ in family_bodies(F, w, depth=0) for c in b_.calls if c.target.rsplit('::', 1)[-1] in ('bind', 'collect_identifiers')]
+        if binders:
+            rep.viol('R17.7', '%s|binds' % w, '%s binds names itself (%s): names declared later in a statement list become bound before the statements that precede the declaration are frozen, so an earlier read of an outer variable of that name is left late-bound' % (w, binders[0].target.rsplit('::', 1)[-1]), binders[0].loc())
+        oks_ = [(bb, s_) for bb, s_ in wb_.aggregates() if s_[1] == [0] and s_[2][2] == 'std::result::Result' and s_[2][4] == 'Ok' and s_[2][5]]
+        for bb, s_ in oks_:
+            og = origins(wb_, s_[2][5][0], passthru=('new', 'from', 'into', 'branch', 'from_output'))
+            frozen = [o for o in og if o[0] == 'call' and (is_ff(o[1]) or o[1].rsplit('::', 1)[-1] in ('collect', 'transpose', 'map'))]
+            raw = [o for o in og if o[0] in ('param', 'payload') or (o[0] == 'call' and o[1].endswith('Clone>::clone'))]
+            consts = [o for o in og if o[0] == 'agg']
+            if raw and not frozen:
+                rep.viol('R17.7', '%s|returns-unfrozen' % w, '%s returns its argument (or a clone of it) instead of the frozen copy: free variables inside it are resolved when the code runs, not when it is frozen' % w, wb_.loc(bb))
+            elif frozen or consts:
+                rep.ok('R17.7', '%s result' % nm_, 'the frozen value (or None / the underscore node)')
     # ---------------- R17.9
     rep.rule('R17.9', 'a bare `_` is accepted only where evaluation can turn it into a section: the underscore-tolerant wrappers are called from the '
              'Index, Update, Chain, Call and List arms of freeze, from freeze_ios (index position) and from each other - not from the generic optional / '
